@@ -48,6 +48,18 @@ def run(tier, seed, only=None):
                 # tamper with a binding before the last run so that "rewritten" is observable in content
                 hh = list(h["h"])
                 cases.append({"id": "%s-force-%d" % (drv, i), "h": hh, "ev": h["ev"], "viz": h["viz"], "driver": drv})
+        # what a forced run leaves behind: forced run (first, or after a generation and one cache-state manipulation)
+        # followed by a plain run, which must find everything current and write nothing
+        if only is None:
+            for drv in ("cli", "build"):
+                for fam in ("forceplain2", "forceplain3"):
+                    hp, _ = P.gen_histories("Gen_Pipeline_%s_%s" % (fam, drv))
+                    if tier == "quick":
+                        def env_kind(h):
+                            return [x for x in h["h"] if x[0] not in ("run", "end")]
+                        hp = [h for h in hp if all(x[0] in ("edit", "corrupt", "tamper") or (x[0] == "lose" and x[1] == "cache") for x in env_kind(h))]
+                    for i, h in enumerate(hp):
+                        cases.append({"id": "%s-%s-%d" % (drv, fam, i), "h": list(h["h"]), "ev": h["ev"], "viz": h["viz"], "cmds": h.get("cmds", True), "driver": drv})
     allev, info = P.replay_all(d, cases)
     mism = P.validate(d, allev)
     first = P.first_mismatch_per_case(mism, PROP)
